@@ -5,6 +5,7 @@ From CiwV Require Acc.C01 Acc.C02 Acc.C03 Acc.C04 Acc.C05 Acc.C06 Acc.C07 Acc.C0
 From CiwV Require Acc.C17.
 From CiwV Require Acc.C19.
 From CiwV Require Acc.C20.
+From CiwV.Engine Require Codec.
 Import ListNotations.
 Open Scope Z_scope.
 
@@ -39,6 +40,8 @@ Fixpoint upto (m : nat) : list nat := match m with O => [O] | S k => upto k ++ [
 
 Definition dispatch_model (name : Z) (s : sx) : sx :=
   match name with
+  | 31 => Codec.run_wrap s   (* engine model: Simulation.wrap_up_servers(T) *)
+  | 30 => Codec.run_step s   (* engine model: one event from the implementation's snapshot *)
   | 12 => (* Schedule object: states after 0..m calls of get_next_shift *)
     match s with
     | L [b; v; A off; A m] =>
